@@ -31,7 +31,7 @@ TOL = 1e-12
 
 
 def _sups(tier):
-    return ['B2AB211sB', 'HCP211', 'FCC2I'] if tier == 'quick' else en.SMALL3D + ['CHAINAB5']
+    return ['B2AB211sB', 'B2AB211m', 'HCP211', 'FCC2I'] if tier == 'quick' else en.SMALL3D + ['CHAINAB5']   # B2AB211m: two mobile species
 
 
 def _exps(tier):
